@@ -269,6 +269,24 @@ def _config_defaults(repo, fi):
     return out
 
 
+def _unsatisfiable(prem):
+    """no truth assignment of the atoms satisfies all of [(test, polarity)]: True / False; None when there are too many atoms"""
+    import itertools
+    atoms = set()
+    fs = []
+    for t, p in prem:
+        f = diffcon._formula(t, atoms)
+        fs.append(f if p else ('not', f))
+    names = sorted(atoms)
+    if len(names) > diffcon.MAX_ATOMS:
+        return None
+    for vals in itertools.product((True, False), repeat=len(names)):
+        env = dict(zip(names, vals))
+        if all(diffcon._holds(f, env) for f in fs):
+            return False
+    return True
+
+
 def defaults_used(fi, defaults):
     """{'self.x': node} for the configuration switches the function reads"""
     out = {}
@@ -370,7 +388,29 @@ def check_render_context(rep, rule, fi):
                           'a value the endpoint put into the render context is removed (%s): the rendered body changes' % short(n), mod, n)
                 continue
             if n.func.attr == 'update':
-                raise AnalysisError('%s: %s writes several keys of the render context at once; cannot tell whether they were unset' % (fi.key, short(n)))
+                # several keys at once: fine when the source is filtered to keys that are unset, or when the statement cannot run in
+                # the default configuration (it sits under a switch of the middleware that is off by default)
+                n_sites += 1
+                st = stmt_of(mod, n)
+                srcs = [loc.resolve(a, st) for a in n.args]
+                filtered = bool(srcs) and not n.keywords and all(
+                    isinstance(x, (ast.GeneratorExp, ast.ListComp, ast.DictComp)) and
+                    any(isinstance(i, ast.Compare) and len(i.ops) == 1 and isinstance(i.ops[0], ast.NotIn) and norm(i.comparators[0]) == 'context'
+                        for g in x.generators for i in g.ifs) for x in srcs)
+                cs = expand_conds(loc.conds(conds(fi, n), mod))
+                used = {}
+                for t, _ in cs:
+                    for x in ast.walk(t):
+                        if isinstance(x, ast.Attribute) and norm(x) in defaults:
+                            used[norm(x)] = x
+                dead = _unsatisfiable(cs + [(x, bool(defaults[k])) for k, x in sorted(used.items())])
+                if dead is None:
+                    raise AnalysisError('%s: path condition of %s too large to decide' % (fi.key, short(st)))
+                ok = filtered or dead
+                rep.check(rule, fkey(fi, 'context.update()'), ok,
+                          '%s writes only keys that are unset / cannot run in the default configuration' % short(n) if ok else
+                          '%s writes its keys into the render context whether or not the endpoint set them (default configuration): values the '
+                          'endpoint returned are replaced and the rendered body changes' % short(n), mod, n)
             continue
         else:
             continue
